@@ -299,7 +299,7 @@ class AdvanceRealtime(ExecKernel):
     name = "executor.cpp:advance_realtime"
     fn_name = "advance_realtime"
     filter = "advance_realtime"
-    property_ids = ("C17",)
+    property_ids = ("C17", "C16")
     realtime = True
     lock_protected = ("push_update_pending",)
     title = "advance_realtime: r = min(target, max(wall, prev + MIN_TD)), waiting under the mutex in bounded slices"
@@ -358,7 +358,8 @@ class AdvanceRealtime(ExecKernel):
         ctx.oblige("ensures.evaluation_time=result", ctx.store[(self.st.oid, "evaluation_time")] == ret, kind="post-normal")
         ctx.oblige("ensures.never-past-the-earliest-pending-time[C17 a due wake-up is delivered late, not dropped]",
                    z3.Implies(z3.Not(drained), ret <= tgt), kind="post-normal")
-        ctx.oblige("ensures.time-strictly-increases-when-target-is-ahead[C17]",
+        ctx.oblige("ensures.time-strictly-increases-when-target-is-ahead[C17; C16 values are delivered at strictly increasing engine times, "
+                   "never overwriting one another]",
                    z3.Implies(tgt > T, ret > T), kind="post-normal")
         ctx.oblige("ensures.never-ahead-of-the-wall-clock-except-the-forced-smallest-step[C17 never before the wall "
                    "clock has reached T]", z3.Implies(z3.Not(drained), ret <= floor), kind="post-normal")
